@@ -21,10 +21,24 @@ def unsatisfied_filter(ctx, f, rule):
     bodies = db.with_closures(f)
     ok = False
     why = "no filter `!node.is_arg_satisfied(i)` over `imports.iter().enumerate()` found"
-    for t in f.calls():
+    # the filter may live in a private helper of the graph that the body calls (look through two levels of local callees)
+    hosts = [f]
+    frontier = [f]
+    for _ in range(2):
+        nxt = []
+        for g in frontier:
+            for t in g.calls():
+                h = db.fns.get(t.path or "")
+                if h is not None and h.crate == "wac_graph" and h not in hosts and "{closure" not in h.id:
+                    hosts.append(h)
+                    nxt.append(h)
+        frontier = nxt
+    for f_, t in [(g, t) for g in hosts for t in g.calls()]:
+        if ok:
+            break
         if not (t.path or "").endswith("Iterator::filter"):
             continue
-        rs = prov.slice(f, t.args[0], follow_closures=False)
+        rs = prov.slice(f_, t.args[0], follow_closures=False)
         if not (rs.has_field("imports", "component::World") and rs.has_call("Iterator::enumerate")):
             continue
         for fa in t.fnargs:
@@ -40,7 +54,7 @@ def unsatisfied_filter(ctx, f, rule):
                 "the satisfied-argument test is not negated (or missing) in the filter: satisfied arguments would be imported and unsatisfied ones dropped"
     ctx.ob(rule, "unsatisfied-filter|" + f.id.split("::")[-1], ok, why, site=f.span)
     # only instantiation nodes are considered
-    ds = [s for s in f.stmts() if s.rv.k == "discr" and s.rv.j.get("adt", "").endswith("graph::NodeKind")]
+    ds = [s for g in hosts for s in g.stmts() if s.rv.k == "discr" and s.rv.j.get("adt", "").endswith("graph::NodeKind")]
     ctx.ob(rule, "instantiations-only|" + f.id.split("::")[-1], bool(ds), "nodes are filtered by NodeKind::Instantiation" if ds else "node kinds are not tested", site=f.span, nontrivial=False)
     return ok
 
